@@ -4,4 +4,6 @@ let components : (string * Generic.component) list = [
   ("pool", PoolComp.pool_component);
   ("timecache", TimeCacheComp.timecache_component);
   ("unit", UnitComp.unit_component);
+  ("persist", PersistComp.persist_component);
+  ("fifo", FifoComp.fifo_component);
 ]
